@@ -49,12 +49,44 @@
                                                                       Z.log2 (m^14405) / 10000),
                                                                       find_cost_logarithmic_real (ln/Int_part),
                                                                       height_logarithmic, fibonacci_size_bound
-   Not theorems (validated by the correspondence run only): the threaded prev/next list equals the
-   in-order walk, parent links, the stored `slope` field, and that the code's "stop when the height
-   did not change" shortcuts compute the tree of the model (shape and stored heights are compared
-   after every operation). *)
+   POINTER LEVEL (round 3).  Cell machine = AvlHeapModel: a heap of Items addressed by slot, each with the
+   nine fields key, value, parent, left, right, height, slope (map T) and prev, next (map L), plus the header
+   root, _begin.item, endItem.prev, _size; insert (plain and hinted), remove(Iterator) with its leaf /
+   one-child / two-children cases (in-order neighbour chosen by the stored heights, direct child or deeper),
+   the rebalParent loop with its jump to `*cell`, the rebalParentUpwards / insert loop with its early exit,
+   rebal, shiftl/shiftr, rotl/rotr, updateHeightAndSlope, the list threading and un-threading, find, clear,
+   copy construction / operator=, insert(other) are written as the individual field writes of the C++ in the
+   C++'s order; a null dereference or an exhausted loop bound makes the machine answer None.
+   Rep cs c  =  the cells reachable from root represent the node-level tree [tr c] (trep: key, value, parent,
+   left, right, height = stored height, slope = stored height(left) - stored height(right) at every node),
+   the next/prev chains from _begin / endItem.prev are the slots of the in-order sequence (lrep), _size = sz c.
+   "tree links + per-node height/slope", "begin/end sentinels
+   and size counter"                                              -> parent_links_consistent,
+                                                                      threaded_list_is_inorder,
+                                                                      every_item_has_a_context
+   "descending insert + list threading + upward rebalance",
+   "two-child removal via in-order neighbour, rebalParent /
+   rebalParentUpwards loops", "rotations keep height/slope":
+   the cell machine never faults and ends every operation of
+   every history in cells that represent the node-level tree     -> cell_machine_refines_tree,
+                                                                      cell_step_refines_tree,
+                                                                      cell_machine_never_faults,
+                                                                      insert_cells_match_model,
+                                                                      remove_cells_match_model,
+                                                                      rebal_cells_match_model,
+                                                                      upward_loop_computes_rebuild,
+                                                                      rebal_parent_loop_computes_rebuild
+   "stop when the height did not change"                          -> early_exit_is_sound (node level: the remaining
+                                                                      ancestors would not change), used inside
+                                                                      upward_loop_computes_rebuild and
+                                                                      rebal_parent_loop_computes_rebuild
+   slots (allocation numbers) are distinct and below the counter  -> slots_distinct_and_below_counter
+   Not modelled at the pointer level: the free list / block allocator (a slot is never reused; the harness
+   renames addresses to allocation numbers), the destructor, endItem.parent / endItem.next (never accessed).
+   The public results (returned iterators, find/count/front/back) are those of the node-level model. *)
 From Coq Require Import ZArith List Reals.
 From Avl Require Import AvlSpec AvlModel AvlLists AvlBalance AvlOrder AvlInv AvlRefine AvlCost AvlCostReal.
+From Avl Require Import AvlHeapModel AvlHeapRep AvlHeapTree AvlHeapList AvlHeapOps AvlHeapRemove AvlHeapRefine.
 Import ListNotations.
 Local Open Scope Z_scope.
 
@@ -170,6 +202,105 @@ Theorem find_cost_logarithmic_real : forall f ops k,
 Proof. exact find_cost_real. Qed.
 Print Assumptions find_cost_logarithmic_real.
 
+(* ---- (4) the pointer level ---------------------------------------------------------------------------------- *)
+Theorem cell_machine_refines_tree : forall f ops,
+  exists hst, hrun f h_init ops = Some hst /\ HRep hst (run f m_init ops).
+Proof. exact hrun_refines. Qed.
+Print Assumptions cell_machine_refines_tree.
+
+Theorem cell_step_refines_tree : forall f hst st o,
+  Inv f st -> SInv st -> HRep hst st ->
+  exists hst', hstep f hst o = Some hst' /\ HRep hst' (fst (step f st o)).
+Proof. exact hstep_refines. Qed.
+Print Assumptions cell_step_refines_tree.
+
+Theorem cell_machine_never_faults : forall f ops, hrun f h_init ops <> None.
+Proof. exact hrun_never_faults. Qed.
+Print Assumptions cell_machine_never_faults.
+
+Theorem slots_distinct_and_below_counter : forall f ops, SInv (run f m_init ops).
+Proof. exact sinv_run. Qed.
+Print Assumptions slots_distinct_and_below_counter.
+
+Theorem threaded_list_is_inorder : forall f ops hst,
+  hrun f h_init ops = Some hst ->
+  let cs := h_sel hst in
+  let c := m_sel (run f m_init ops) in
+  l_list (S (l_size (ls cs))) (lh (ls cs)) (l_begin (ls cs)) = map eslot (inorder (tr c)) /\
+  p_list (S (l_size (ls cs))) (lh (ls cs)) (l_eprev (ls cs)) = rev (map eslot (inorder (tr c))) /\
+  l_eprev (ls cs) = last_ptr (map eslot (inorder (tr c))) None /\
+  l_begin (ls cs) = hd_ptr (map eslot (inorder (tr c))) LEnd /\
+  l_size (ls cs) = length (inorder (tr c)).
+Proof. exact reachable_list. Qed.
+Print Assumptions threaded_list_is_inorder.
+
+Theorem parent_links_consistent : forall f ops hst c0 l k v s h r,
+  hrun f h_init ops = Some hst ->
+  tr (m_sel (run f m_init ops)) = plug (Node l k v s h r) c0 ->
+  let T := fst (ts (h_sel hst)) in
+  ckey (T s) = k /\ cval (T s) = v /\ cpar (T s) = ctx_par c0 /\ cleft (T s) = rootp l /\ cright (T s) = rootp r /\
+  cht (T s) = h /\ cslope (T s) = Z.of_nat (ht l) - Z.of_nat (ht r) /\
+  (forall a, rootp l = Some a -> cpar (T a) = Some s) /\
+  (forall a, rootp r = Some a -> cpar (T a) = Some s) /\
+  (c0 = [] -> snd (ts (h_sel hst)) = Some s).
+Proof. exact reachable_cell. Qed.
+Print Assumptions parent_links_consistent.
+
+Theorem every_item_has_a_context : forall t i a,
+  nth_error (tslots t) i = Some a ->
+  exists c l k v h r, t = plug (Node l k v a h r) c /\ ctx_strict c /\ i = (length (before c) + size l)%nat.
+Proof. exact decomp. Qed.
+Print Assumptions every_item_has_a_context.
+
+Theorem early_exit_is_sound : forall c t0 t, bal (plug t0 c) -> ht t = ht t0 -> rebuild t c = plug t c.
+Proof. exact early_exit_bal. Qed.
+Print Assumptions early_exit_is_sound.
+
+Theorem upward_loop_computes_rebuild : forall c fuel T root t' hh,
+  (length c < fuel)%nat ->
+  trep T (ctx_par c) t' -> crep T root c (rootp t') hh -> NoDup (tslots t' ++ cslots c) ->
+  bal t' -> ctx_bal c -> ctx_ok c hh -> near (ht t') hh -> ctx_strict c ->
+  exists T' root', m_up fuel (T, root) (ctx_par c) = Some (T', root') /\
+    trep T' None (rebuild t' c) /\ root' = rootp (rebuild t' c).
+Proof. exact m_up_spec. Qed.
+Print Assumptions upward_loop_computes_rebuild.
+
+Theorem rebal_parent_loop_computes_rebuild : forall top c sp fuel T root t' hh,
+  (length sp < fuel)%nat ->
+  trep T (ctx_par (sp ++ top :: c)) t' -> crep T root (sp ++ top :: c) (rootp t') hh ->
+  NoDup (tslots t' ++ cslots (sp ++ top :: c)) -> ctx_ok sp hh -> ctx_strict sp ->
+  bal (rebal (fill_mk top (rebuild t' sp))) ->
+  exists T' root',
+    m_rebal_parent fuel (T, root) (ctx_cell c) (ctx_par c) (fslot (hd top sp)) = Some ((T', root'), ctx_par c) /\
+    trep T' (ctx_par c) (rebal (fill_mk top (rebuild t' sp))) /\
+    crep T' root' c (rootp (rebal (fill_mk top (rebuild t' sp)))) (fh top).
+Proof. exact m_rebal_parent_spec. Qed.
+Print Assumptions rebal_parent_loop_computes_rebuild.
+
+Theorem rebal_cells_match_model : forall T root c l k v s h r hh0,
+  let t := Node l k v s h r in
+  trep T (ctx_par c) t -> crep T root c (Some s) hh0 -> NoDup (tslots t ++ cslots c) ->
+  exists T' root' a, m_rebal s (T, root) = Some ((T', root'), a) /\ rootp (rebal t) = Some a /\
+    trep T' (ctx_par c) (rebal t) /\ crep T' root' c (Some a) hh0.
+Proof. exact m_rebal_spec. Qed.
+Print Assumptions rebal_cells_match_model.
+
+Theorem insert_cells_match_model : forall f k v n cs c,
+  Rep cs c -> cinv f c -> slot_ok c n ->
+  exists cs' it, m_insert_plain f k v n cs = Some (cs', it, ins_new f k (tr c)) /\
+    Rep cs' (fst (fst (c_insert f k v c n))) /\
+    nth_error (tslots (tr (fst (fst (c_insert f k v c n))))) (ins_rank f k (tr c)) = Some it.
+Proof. exact insert_plain_rep. Qed.
+Print Assumptions insert_cells_match_model.
+
+Theorem remove_cells_match_model : forall cs cont c l k v s h r,
+  Rep cs cont -> tr cont = plug (Node l k v s h r) c -> ctx_strict c ->
+  bal (tr cont) -> sz cont = size (tr cont) -> NoDup (tslots (tr cont)) ->
+  exists cs', m_remove s cs = Some (cs', hd_ptr (tslots r ++ aslots c) LEnd) /\
+    Rep cs' {| tr := rebuild (remove_root l r) c; sz := pred (sz cont) |}.
+Proof. exact m_remove_rep. Qed.
+Print Assumptions remove_cells_match_model.
+
 (* ---- non-vacuity ----------------------------------------------------------------------------------------- *)
 (* a reachable Map state with rotations, two-child removal, hinted inserts, bulk insert and copy behind it *)
 Example ex_reachable_map :
@@ -242,3 +373,36 @@ Example ex_fib_tight :
   let t := Node (Node (Node Leaf 1 0 0 1 Leaf) 2 0 1 2 Leaf) 3 0 2 3 (Node Leaf 4 0 3 1 Leaf) in
   ht t = 3%nat /\ size t = 4%nat /\ fib (ht t + 2) = (size t + 1)%nat.
 Proof. vm_compute. repeat split; reflexivity. Qed.
+
+(* the cell machine on a history with rotations in both directions, double rotations, two-child removals
+   through a deeper successor / predecessor, a hinted insert, a copy and a bulk insert: it does not fault,
+   the root is slot 13, the next chain from _begin and the prev chain from endItem.prev are the slots of the
+   in-order sequence, the cell of slot 0 (key 50) hangs under slot 13 with children 7 and 9, height 3, slope 0 *)
+Example ex_cells :
+  match hrun FMap h_init ex_ops_cells with
+  | None => False
+  | Some h =>
+      let cs := h_sel h in
+      snd (ts cs) = Some 13%nat /\ l_size (ls cs) = 10%nat /\
+      l_list 11 (lh (ls cs)) (l_begin (ls cs)) = map eslot (inorder (tr (m_sel (run FMap m_init ex_ops_cells)))) /\
+      l_list 11 (lh (ls cs)) (l_begin (ls cs)) = [25; 3; 12; 13; 7; 4; 0; 5; 9; 2]%nat /\
+      p_list 11 (lh (ls cs)) (l_eprev (ls cs)) = [2; 9; 5; 0; 4; 7; 13; 12; 3; 25]%nat /\
+      fst (ts cs) 0%nat = {| ckey := 50; cval := 1; cpar := Some 13%nat; cleft := Some 7%nat; cright := Some 9%nat; cht := 3; cslope := 0 |}
+  end.
+Proof. vm_compute. repeat split; reflexivity. Qed.
+
+(* the invariants the pointer-level theorems assume hold in that state, and the state is a plugged node *)
+Example ex_cells_context :
+  tr (m_sel (run FMap m_init ex_ops_cells)) =
+    plug (Node (Node Leaf 35 8 7 2 (Node Leaf 40 5 4 1 Leaf)) 50 1 0 3 (Node (Node Leaf 60 6 5 1 Leaf) 65 10 9 2 (Node Leaf 70 3 2 1 Leaf)))
+         [FR true (Node (Node Leaf 1 15 25 1 Leaf) 20 4 3 2 (Node Leaf 31 13 12 1 Leaf)) 32 14 13 4].
+Proof. vm_compute. reflexivity. Qed.
+
+(* early exit: in this balanced tree the left subtree of the root is replaced by another one of the same
+   stored height; re-balancing the ancestors (rebuild) changes nothing (= plug), and both differ from the old tree *)
+Example ex_early_exit :
+  let c := [FL true 5 0 9 3 (Node Leaf 7 0 8 2 (Node Leaf 8 0 7 1 Leaf))] in
+  let t0 := Node Leaf 1 0 1 1 Leaf in
+  let t := Node Leaf 2 0 2 1 Leaf in
+  bal (plug t0 c) /\ ht t = ht t0 /\ rebuild t c = plug t c /\ plug t c <> plug t0 c.
+Proof. vm_compute. repeat split; try reflexivity; try discriminate; repeat constructor. Qed.
